@@ -14,8 +14,9 @@ Local Open Scope Z_scope.
 (* ---------- backend error values ---------- *)
 
 (* [BK k]: sentinel k of commonerrors.  [BErrno n]: syscall.Errno(n).  [BF i]: the i-th named value of another
-   package (table [foreign]).  [BOpaque m]: errors.New(m).  [BPath pre e]: *os.PathError / *os.LinkError /
-   *os.SyscallError around e (what os.underlyingError looks through; text "pre: e").  [BWrap m e]: *fmt.wrapError
+   package (table [foreign]).  [BOpaque m]: errors.New(m).  [BPath tm pre e]: *os.PathError / *os.LinkError /
+   *os.SyscallError around e (what os.underlyingError looks through; text "pre: e"; tm: the type has a Timeout()
+   method delegating to e - PathError and SyscallError do, LinkError does not).  [BWrap m e]: *fmt.wrapError
    with text m around e (fmt.Errorf with one %w).  [BJoin a b]: errors.Join(a, b). *)
 Inductive berr :=
 | BK (k : nat)
@@ -24,7 +25,7 @@ Inductive berr :=
 | BErrno (n : Z)
 | BF (i : nat)
 | BOpaque (m : bytes)
-| BPath (pre : bytes) (e : berr)
+| BPath (tm : bool) (pre : bytes) (e : berr)
 | BWrap (m : bytes) (e : berr)
 | BJoin (a b : berr).
 
@@ -88,7 +89,7 @@ Fixpoint b_text (e : berr) : bytes :=
   | BErrno n => errno_text n
   | BF i => f_text (finfo_of i)
   | BOpaque m => m
-  | BPath pre e' => pre ++ [58; 32] ++ b_text e'
+  | BPath _ pre e' => pre ++ [58; 32] ++ b_text e'
   | BWrap m _ => m
   | BJoin a b => b_text a ++ [10] ++ b_text b
   end.
@@ -120,7 +121,7 @@ Fixpoint b_is (e t : berr) : bool :=
   match e with
   | BErrno n => errno_is n t
   | BF i => match f_kind (finfo_of i) with Some k => b_same (BK k) t | None => false end
-  | BPath _ e' => b_is e' t
+  | BPath _ _ e' => b_is e' t
   | BWrap _ e' => b_is e' t
   | BJoin a b => b_is a t || b_is b t
   | _ => false
@@ -131,7 +132,7 @@ Definition b_any (e x : berr) : bool := b_is x e || b_is e x.
 Definition b_anyl (e : berr) (xs : list berr) : bool := existsb (b_any e) xs.
 
 (* os.underlyingError: one level of *PathError / *LinkError / *SyscallError *)
-Definition os_underlying (e : berr) : berr := match e with BPath _ e' => e' | _ => e end.
+Definition os_underlying (e : berr) : berr := match e with BPath _ _ e' => e' | _ => e end.
 
 (* "has a Timeout() method that returns true": Errno, os.ErrDeadlineExceeded, context.DeadlineExceeded, and
    *PathError / *LinkError / *SyscallError, which delegate to what they wrap *)
@@ -140,7 +141,7 @@ Fixpoint timeout_iface (e : berr) : bool :=
   | BErrno n => errno_timeout n
   | BF i => f_timeout (finfo_of i)
   | BDeadline => true
-  | BPath _ e' => timeout_iface e'
+  | BPath tm _ e' => tm && timeout_iface e'
   | _ => false
   end.
 
@@ -152,15 +153,27 @@ Definition os_uis (e t : berr) : bool :=
   let u := os_underlying e in
   b_same u t || match u with BErrno n => errno_is n t | _ => false end.
 
+(* filesystem.isTimeoutError (added by fixes/C11-timeout-through-wrapping.patch): err or anything it wraps
+   (Unwrap() error, Unwrap() []error) has a Timeout() method that returns true *)
+Fixpoint any_timeout (e : berr) : bool :=
+  timeout_iface e ||
+  match e with
+  | BPath _ _ e' => any_timeout e'
+  | BWrap _ e' => any_timeout e'
+  | BJoin a b => any_timeout a || any_timeout b
+  | _ => false
+  end.
+
 Definition helper_eval (name : string) (e : berr) : bool :=
   if String.eqb name "os.IsTimeout" then os_is_timeout e
   else if String.eqb name "os.IsExist" then os_uis e (BF F_ErrExist)
   else if String.eqb name "os.IsNotExist" then os_uis e (BF F_ErrNotExist)
   else if String.eqb name "os.IsPermission" then os_uis e (BF F_ErrPermission)
+  else if String.eqb name "filesystem.isTimeoutError" then any_timeout e
   else false.
 
 Definition known_helper (name : string) : bool :=
-  existsb (String.eqb name) ["os.IsTimeout"; "os.IsExist"; "os.IsNotExist"; "os.IsPermission"]%string.
+  existsb (String.eqb name) ["os.IsTimeout"; "os.IsExist"; "os.IsNotExist"; "os.IsPermission"; "filesystem.isTimeoutError"]%string.
 
 (* the value a Go name of the rule tables stands for *)
 Fixpoint index_of (name : string) (l : list string) (i : nat) : option nat :=
@@ -294,13 +307,13 @@ Definition tables_ok : bool :=
 
 (* a frame put around an error by a layer between the backend and the converter *)
 Inductive frame :=
-| FPath (pre : bytes)        (* &os.PathError{Op, Path, Err: e}: text "pre: e" *)
+| FPath (tm : bool) (pre : bytes) (* &os.PathError / LinkError / SyscallError{..., Err: e}: text "pre: e" *)
 | FWrap (pre : bytes)        (* fmt.Errorf("pre: %w", e) *)
 | FJoinL (noise : bytes).    (* errors.Join(errors.New(noise), e) *)
 
 Definition apply_frame (f : frame) (e : berr) : berr :=
   match f with
-  | FPath pre => BPath pre e
+  | FPath tm pre => BPath tm pre e
   | FWrap pre => BWrap (pre ++ [58; 32] ++ b_text e) e
   | FJoinL noise => BJoin (BOpaque noise) e
   end.
@@ -310,7 +323,7 @@ Definition plug (w : list frame) (c : berr) : berr := fold_right apply_frame c w
 
 (* the text a frame puts in front of the text of what it wraps *)
 Definition frame_prefix (f : frame) : bytes :=
-  match f with FPath pre => pre ++ [58; 32] | FWrap pre => pre ++ [58; 32] | FJoinL noise => noise ++ [10] end.
+  match f with FPath _ pre => pre ++ [58; 32] | FWrap pre => pre ++ [58; 32] | FJoinL noise => noise ++ [10] end.
 
 (* all the strings the text predicates of the tables look for *)
 Definition atom_strings (a : catom) : list bytes := match a with PText ss => ss | _ => [] end.
@@ -326,6 +339,12 @@ Definition all_targets_b : list berr :=
   map BK (seq 0 nkinds) ++ [BCanceled; BDeadline].
 
 Definition all_helpers : list string := ["os.IsTimeout"; "os.IsExist"; "os.IsNotExist"; "os.IsPermission"]%string.
+(* predicates that look through every wrapper themselves *)
+Definition strong_helpers : list string := ["filesystem.isTimeoutError"]%string.
+
+(* the filesystem table as it was before fixes/C11-timeout-through-wrapping.patch: without isTimeoutError *)
+Definition fs_cases_before_fix : list ccase :=
+  map (fun cc => (filter (fun a => match a with PHelper h => negb (String.eqb h "filesystem.isTimeoutError") | _ => true end) (fst cc), snd cc)) fs_cases.
 
 (* [neutral_for p s]: putting the text p in front of any text t neither creates nor hides an occurrence of s:
    no non-empty suffix of p is a prefix of s or has s as a prefix *)
